@@ -7,6 +7,10 @@ import glob
 for f in sorted(glob.glob('/verif/manifest_parts/*.json')):
     d = json.load(open(f))
     CHECKS[d['property_id']] = d
+PENDING = set(open('/verif/tools/pending.txt').read().split()) if os.path.exists('/verif/tools/pending.txt') else set()
+for p_ in PENDING:
+    CHECKS.pop(p_, None)
+    NOT_YET[p_] = 'the specification and check for this property exist in /verif but are still being stabilised; not claimed until they have run green on the unchanged tree'
 props = [json.loads(l)['id'] for l in open('/verif/properties.jsonl')]
 checks = []
 for pid in props:
